@@ -162,7 +162,7 @@ impl Directive {
             Directive::Byte => {
                 if let DirectiveOps::OpList(args) = opts {
                     if args.len() > 1 {
-                        bail!("Too many arguments for {}", self);
+                        bail!("Too many arguments for {}, {}", self, point);
                     }
                     if let Operand::E(expr) = &args[0] {
                         if let Expr::Const(n) = expr {
@@ -296,7 +296,10 @@ impl Directive {
             Directive::If | Directive::ElIf => {
                 if let DirectiveOps::OpList(values) = &opts {
                     if let Operand::E(expr) = &values[0] {
-                        let value = expr.run(&context.common_context)?;
+                        let value = match expr.run(&context.common_context) {
+                            Ok(value) => value,
+                            Err(e) => bail!("{}, {}", e, point),
+                        };
                         if value == 0 {
                             next_item = NextItem::EndIf;
                         }
